@@ -20,18 +20,26 @@ func TestVerifC04(t *testing.T) {
 	gin.SetMode(gin.ReleaseMode)
 	dir := t.TempDir()
 	mgr := vC04Manager()
-	addr := vC04FreeAddr()
-	s := &Server{
-		Address: addr, TrustedProxies: vC04TrustedProxies(),
-		ReadTimeout: conf.Duration(20 * time.Second), WriteTimeout: conf.Duration(20 * time.Second),
-		PathConfs: map[string]*conf.Path{
-			"cam1": {Name: "cam1", RecordPath: filepath.Join(dir, "%path/%Y-%m-%d_%H-%M-%S-%f"), RecordFormat: conf.RecordFormatFMP4},
-			"cam2": {Name: "cam2", RecordPath: filepath.Join(dir, "%path/%Y-%m-%d_%H-%M-%S-%f"), RecordFormat: conf.RecordFormatFMP4},
-		},
-		AuthManager: mgr, Parent: test.NilLogger,
+	var addr string
+	var s *Server
+	var ierr error
+	for try := 0; try < 4; try++ { // the scratch port may be taken between probing and listening
+		addr = vC04FreeAddr()
+		s = &Server{
+			Address: addr, TrustedProxies: vC04TrustedProxies(),
+			ReadTimeout: conf.Duration(20 * time.Second), WriteTimeout: conf.Duration(20 * time.Second),
+			PathConfs: map[string]*conf.Path{
+				"cam1": {Name: "cam1", RecordPath: filepath.Join(dir, "%path/%Y-%m-%d_%H-%M-%S-%f"), RecordFormat: conf.RecordFormatFMP4},
+				"cam2": {Name: "cam2", RecordPath: filepath.Join(dir, "%path/%Y-%m-%d_%H-%M-%S-%f"), RecordFormat: conf.RecordFormatFMP4},
+			},
+			AuthManager: mgr, Parent: test.NilLogger,
+		}
+		if ierr = s.Initialize(); ierr == nil {
+			break
+		}
 	}
-	if err := s.Initialize(); err != nil {
-		t.Fatal(err)
+	if ierr != nil {
+		t.Fatal(ierr)
 	}
 	defer s.Close()
 	vC04Run(t, vC04Spec{Server: "playback", Base: "http://" + addr, Routes: vC04Routes(s.httpServer.Handler), Share: 18}, mgr)
